@@ -391,3 +391,11 @@ func VerifRestoreModes(debug, trace bool) {
 }
 
 func VerifDebugMode() bool { return is.DebugMode() }
+
+// VerifRestoreKeepPools is VerifRestore without replacing the pools: whatever
+// the previous case left in the pooled contexts / slices flows into the next one.
+func VerifRestoreKeepPools(s *VerifSnap) {
+	pc, pa, fs := poolPrintCtx, poolAttrs, fixedSize
+	VerifRestore(s)
+	poolPrintCtx, poolAttrs, fixedSize = pc, pa, fs
+}
